@@ -102,6 +102,15 @@ Fixpoint ask (tries : nat) (a : answers) : Z * backend_answer :=
 
 Definition code_tries : nat := 1%nat.
 
+(* lib/authenticators/okta passwordAuthenticate: one POST to the authn endpoint per lookup;
+   401 -> wrong password; any other status but 200 -> error; 200 with an undecodable body -> error;
+   200 with status word SUCCESS or MFA_REQUIRED -> right; any other status word -> wrong *)
+Inductive okta_body := OSuccess | OMfaRequired | OOtherStatus | OUndecodable.
+Definition okta_answer (http : Z) (b : okta_body) : backend_answer :=
+  if http =? 401 then PwBad
+  else if negb (http =? 200) then PwError
+  else match b with OSuccess | OMfaRequired => PwGood | OOtherStatus => PwBad | OUndecodable => PwError end.
+
 Definition status_of (a : backend_answer) : Z := match a with PwGood => 200 | PwBad => 401 | PwError => 500 end.
 
 Definition login_step_tries (tries : nat) (c : cfg) (s : st) (e : entry) (t : Z) (a : answers) : st * login_out :=
